@@ -61,7 +61,11 @@ TNext ==
                /\ l' = Len(Traces[tid]) + 1
                /\ UNCHANGED <<s, ev, out, h, tid, drift>>
           ELSE LET r == Step(s, e)
-                   o == AsOut(rec.o)
+                   o0 == AsOut(rec.o)
+                   \* close() + a callback cancelling a sibling: "cancelled" is as good as "closed" for that sibling
+                   o == IF e.a = "Close" /\ e.cb.a = "Cancel"
+                        THEN [o0 EXCEPT !.fired = {IF f = <<e.cb.id, "cancelled", 0>> THEN <<e.cb.id, "closed", 0>> ELSE f : f \in @}]
+                        ELSE o0
                IN /\ s' = r.s /\ ev' = e /\ out' = o
                   /\ h' = UpdHist(h, s, e, [s |-> r.s, out |-> o])
                   /\ viol' = viol
